@@ -4,8 +4,8 @@ from fractions import Fraction
 from .. import common, sd_gen, sd_dsl, xmile_gen as X
 from ..sd_gen import fr
 
-ELEMENTS = ["c1", "fin", "bf", "fout", "fo2", "s1", "s2", "s3", "s4", "lkt", "lks", "lkx", "lkd", "lkxs"]
-DSL_ELEMENTS = ["c1", "fin", "bf", "fout", "fo2", "s1", "s2", "s3", "s4", "lkt", "lks"]      # the DSL has the continuous lookup only
+ELEMENTS = ["c1", "fin", "bf", "fout", "fo2", "s1", "s2", "s3", "s4", "lkt", "lks", "lk2", "lkx", "lkd", "lkxs"]
+DSL_ELEMENTS = ["c1", "fin", "bf", "fout", "fo2", "s1", "s2", "s3", "s4", "lkt", "lks", "lk2"]      # the DSL has the continuous lookup only
 
 
 def num(v):
@@ -55,6 +55,7 @@ def document(P, rs, spelling, variant):
          stock("s1", num(P["s0"]), ["fin"], ["fout", "fo2"]), stock("s2", "0", ["bf", "fout"], []),
          stock("s3", "0", ["f3"], []), stock("s4", "0", ["f4"], []),
          gf_aux("lkt", "TIME", P["pts"], variant % 2 == 0, [None, "continuous"][variant % 2]), gf_aux("lks", "s1", P["pts"], variant % 2 == 1),
+         gf_aux("lk2", "TIME", [[x, [y[0] + y[1], y[1]]] for x, y in P["pts"]], variant % 2 == 1),
          gf_aux("lkx", "TIME", P["pts"], variant % 2 == 1, "extrapolate"), gf_aux("lkd", "TIME", P["pts"], variant % 2 == 0, "discrete"),
          gf_aux("lkxs", "s1", P["pts"], variant % 2 == 0, "extrapolate")]
     return X.document("c04", v, start=f2(start), stop=f2(stop), dt=dt_xml(rs["dt"], spelling))
